@@ -1,5 +1,200 @@
-"""stub"""
+"""C05 — Define'd parameters and ModelAlias'd models mean their expansion (DESIGN.md §4 C05)."""
+from __future__ import annotations
+
+import ast
+
+from ..core import guards
+from ..core import pyfacts as pf
+from ..core.effects import effects
+from ..core.larkfacts import grammar_facts
+from ..core.match import txt
 from ..core.source import AnchorMissing
-PROP="C05"
+from .common import DEC, DECGRAMMAR, ckey, enclosing, fn, returns, stmt_of, where
+
+PROP = "C05"
+FILES = [DEC, DECGRAMMAR]
+EXPLANATION = (
+    "C05.1 Define and ModelAlias tables are built by unconditional overwrite while iterating find_data directly "
+    "(last definition wins) and read the right children (flow signatures); C05.2 ownership: what the alias "
+    "transformer puts into a decay tree is a fresh copy per use, never a reference into its own table; C05.3 the "
+    "parameter visitor: numeric children → float, words: lookup key is the text without a leading '-', the value is "
+    "negated exactly when the '-' was present, assignment only when the key is defined, every child visited; C05.4 "
+    "replacement covers all tables and precedes copying and conjugation (C01.5).")
+NOT_DECIDED = ["textual-expansion equivalence as an equality of tables (needs execution)", "alias-of-alias chains (O1, outside the quantifier)"]
+G = DECGRAMMAR
+
+
 def run(ctx, ss):
-    raise AnchorMissing("rules not built yet")
+    from .c01 import c01_5
+    for r, f in (("C05.1", c05_1), ("C05.2", c05_2), ("C05.3", c05_3)):
+        ctx.guard(r, f, ss)
+    ctx.guard("C05.4", lambda c, s: _as(c, s, c01_5, "C05.4"), ss)
+
+
+def _as(ctx, ss, f, rule):
+    """Run a rule function of another property and re-label its results."""
+    n0 = len(ctx.results)
+    f(ctx, ss)
+    for r in ctx.results[n0:]:
+        r.rule = rule
+
+
+def c05_1(ctx, ss):
+    from .c07 import _direct_find_data
+    from .common import accessor_sig
+    gf = grammar_facts(ss, G)
+    # Define
+    ff, flow = fn(ss, DEC, "get_definitions")
+    rets = [r for r in returns(ff) if isinstance(r.value, ast.DictComp)]
+    k = ckey(ff, None, "last-wins")
+    if rets:
+        g = rets[0].value.generators
+        ok = len(g) == 1 and not g[0].ifs and _direct_find_data(flow.expand(g[0].iter), "define")
+        (ctx.holds if ok else ctx.violation)("C05.1", k, where(ff, rets[0]),
+                                              "Define table: dict comprehension directly over find_data('define') (document order, last wins)" if ok
+                                              else f"Define statements are filtered / reordered before the table is built (`{txt(g[0].iter)[:80]}`): the last definition no longer wins")
+    else:
+        stores = [s for s in pf.iter_stmts(ff.node.body) if isinstance(s, ast.Assign) and any(isinstance(t, ast.Subscript) for t in s.targets)]
+        if not stores:
+            raise AnchorMissing("get_definitions: table construction not understood")
+        for s in stores:
+            lp = enclosing(ff, s, (ast.For,))
+            conds = [c for c in guards.path_conditions(ff.node, s, stop_at=lp[0] if lp else None) if c[0] == "if"]
+            ok = bool(lp) and _direct_find_data(flow.expand(lp[0].iter), "define") and not conds
+            (ctx.holds if ok else ctx.violation)("C05.1", k, where(ff, s), "Define table: unconditional store in document order" if ok
+                                                  else "Define table: guarded store or reordered statements (first definition wins)")
+        if any(isinstance(c.func, ast.Attribute) and c.func.attr == "setdefault" for c in pf.calls_in(ff.node)):
+            ctx.violation("C05.1", k, where(ff, ff.node), "Define table uses setdefault: the first definition wins")
+    sig, errs, unk, tt = accessor_sig(ss, gf, DEC, "get_definitions", "parsed_file", "start")
+    want = "{start//define/0:LABEL: float(start//define/1:SIGNED_NUMBER)}"
+    (ctx.holds if sig == want and not errs else ctx.violation)("C05.1", ckey(ff, None, "reads"), where(ff, ff.node),
+                                                               f"get_definitions = {sig}" if sig == want and not errs else f"get_definitions reads `{sig}` {errs[:1]}; expected `{want}`")
+    # ModelAlias
+    ff, flow = fn(ss, DEC, "DecFileParser._dict_raw_model_aliases")
+    rets = [r for r in returns(ff) if isinstance(r.value, ast.DictComp)]
+    k = ckey(ff, None, "last-wins")
+    if not rets:
+        raise AnchorMissing("_dict_raw_model_aliases: not a dict comprehension")
+    dc = rets[0].value
+    g = dc.generators
+    it = flow.expand(g[0].iter)
+    ok = len(g) == 1 and not g[0].ifs and isinstance(it, ast.Call) and txt(it.func) == "self._parsed_dec_file.find_data" \
+        and it.args and isinstance(it.args[0], ast.Constant) and it.args[0].value == "model_alias"
+    (ctx.holds if ok else ctx.violation)("C05.1", k, where(ff, rets[0]),
+                                          "ModelAlias table: dict comprehension directly over find_data('model_alias') (last wins)" if ok
+                                          else f"ModelAlias statements are filtered / reordered (`{txt(it)[:80]}`): the last definition no longer wins")
+    from ..core.treetypes import TreeTyper
+    tt = TreeTyper(gf)
+    env = {g[0].target.id: tt.tree("model_alias")} if isinstance(g[0].target, ast.Name) else {}
+    kv = tt.check(dc.key, env)
+    vv = tt.check(dc.value, env)
+    want_k, want_v = "model_alias/0:model_label/0:LABEL", "copy.deepcopy(model_alias/1:model)"
+    okr = kv.sig() == want_k and vv.sig() == want_v and not tt.errors
+    (ctx.holds if okr else ctx.violation)("C05.1", ckey(ff, None, "reads"), where(ff, rets[0]),
+                                           f"alias name = {kv.sig()}, body = children of {vv.sig()}" if okr
+                                           else f"ModelAlias table reads key `{kv.sig()}` value `{vv.sig()}` {tt.errors[:1]}; expected `{want_k}` / `{want_v}`")
+
+
+def c05_2(ctx, ss, rule="C05.2"):
+    ef = effects(ss)
+    ff, flow = fn(ss, DEC, "DecayModelAliasReplacement._replacement")
+    mf_, mflow = fn(ss, DEC, "DecayModelAliasReplacement.model")
+    rets = returns(ff)
+    if not rets:
+        raise AnchorMissing("_replacement has no return")
+    for r in rets:
+        root = ef.root(flow, r.value)
+        k = ckey(ff, None, "alias-body-owned")
+        if root[0] == "fresh" and root[1] in ("deepcopy",):
+            ctx.holds(rule, k, where(ff, r), "each use of a model alias receives its own deep copy of the aliased model sub-tree", 2)
+        else:
+            # is it copied at the use site instead?
+            uses = [c for c in pf.calls_in(mf_.node) if txt(c.func) == "self._replacement"]
+            copied = uses and all(any(isinstance(p, ast.Call) and txt(p.func) in ("copy.deepcopy", "deepcopy") for p in _ancestors(mf_.node, c)) for c in uses)
+            if copied:
+                ctx.holds(rule, k, where(mf_, uses[0]), "the alias body is deep-copied where it is put into the tree", 2)
+            else:
+                ctx.violation(rule, k, where(ff, r),
+                              f"the transformer returns `{txt(r.value)[:60]}` ({root[0]} {root[1]}): every decay line using the alias shares ONE sub-tree "
+                              "with the transformer's table; the parameter visitor then rewrites it once per use (float('…') of an already converted token → TypeError)")
+
+
+def _ancestors(fnode, node):
+    pm = pf.parent_map(fnode)
+    x = node
+    while id(x) in pm:
+        x = pm[id(x)]
+        yield x
+
+
+def c05_3(ctx, ss):
+    ff, flow = fn(ss, DEC, "DecayModelParamValueReplacement._replacement")
+    p = ff.params[1]
+    # (a) numeric children: child token value := float(child token value)
+    stores = [s for s in pf.iter_stmts(ff.node.body) if isinstance(s, ast.Assign) and isinstance(s.targets[0], ast.Attribute)
+              and s.targets[0].attr == "value"]
+    num = [s for s in stores if "children" in txt(s.targets[0])]
+    word = [s for s in stores if "children" not in txt(s.targets[0])]
+    k = ckey(ff, None, "numeric")
+    if len(num) == 1 and txt(num[0].value) == f"float({txt(num[0].targets[0])})" and txt(num[0].targets[0]) == f"{p}.children[0].value":
+        ctx.holds("C05.3", k, where(ff, num[0]), "value child: token.value := float(token.value)", 2)
+    else:
+        ctx.violation("C05.3", k, where(ff, ff.node), "numeric parameters are not converted by float(<their own token value>)")
+    if len(word) != 1:
+        ctx.violation("C05.3", ckey(ff, None, "word"), where(ff, ff.node), f"expected one store for word parameters, found {len(word)}")
+        return
+    w = word[0]
+    # the word store must be in the AttributeError handler of the numeric attempt (token-or-tree idiom)
+    conds = guards.path_conditions(ff.node, w)
+    if not any(kind == "exc" and e.type is not None and txt(e.type) == "AttributeError" for kind, e, pol in conds):
+        ctx.violation("C05.3", ckey(ff, None, "word-branch"), where(ff, w), "the word branch is not the AttributeError fallback of the numeric attempt")
+    ifs = [(flow.expand(e), pol) for kind, e, pol in conds if kind == "if"]
+    val = flow.expand(w.value)
+
+    def is_neg_test(e):
+        return isinstance(e, ast.Compare) and len(e.ops) == 1 and isinstance(e.ops[0], ast.Eq) and txt(e.left) == f"{p}.value[0]" \
+            and isinstance(e.comparators[0], ast.Constant) and e.comparators[0].value == "-"
+
+    def mk(neg):
+        def atom(e):
+            if is_neg_test(e):
+                return neg
+            if isinstance(e, ast.Call) and txt(e.func) == f"{p}.value.startswith" and e.args and isinstance(e.args[0], ast.Constant) and e.args[0].value == "-":
+                return neg
+            return None
+        return atom
+    for neg, key, want in ((False, f"{p}.value", f"self.define_defs[{p}.value]"), (True, f"{p}.value[1:]", f"-self.define_defs[{p}.value[1:]]")):
+        sv = txt(guards.simplify(val, mk(neg)))
+        guards_ = [txt(guards.simplify(e, mk(neg))) for e, pol in ifs if pol]
+        neg_guards = [txt(e) for e, pol in ifs if not pol]
+        kk = ckey(ff, None, f"word:{'minus' if neg else 'plain'}")
+        if sv == want and guards_ == [f"{key} in self.define_defs"] and not neg_guards:
+            ctx.holds("C05.3", kk, where(ff, w), f"{'-name' if neg else 'name'}: value := {want} iff {key} is defined", 3)
+        else:
+            ctx.violation("C05.3", kk, where(ff, w),
+                          f"for a word {'with' if neg else 'without'} leading minus the visitor stores `{sv}` under {guards_ + ['not ' + g for g in neg_guards]}; "
+                          f"expected `{want}` under ['{key} in self.define_defs']")
+    # (d) every child of model_options is visited
+    mo, moflow = fn(ss, DEC, "DecayModelParamValueReplacement.model_options")
+    calls = [c for c in pf.calls_in(mo.node) if txt(c.func) == "self._replacement"]
+    ok = False
+    if len(calls) == 1:
+        lps = enclosing(mo, calls[0], (ast.For,))
+        if len(lps) == 1 and txt(lps[0].iter) == f"{mo.params[1]}.children" and isinstance(lps[0].target, ast.Name) \
+                and txt(calls[0].args[0]) == lps[0].target.id \
+                and not [c for c in guards.path_conditions(lps[0], stmt_of(mo, calls[0])) if c[0] == "if"] \
+                and not any(isinstance(x, (ast.Break, ast.Continue, ast.Return)) for x in ast.walk(lps[0])):
+            ok = True
+    (ctx.holds if ok else ctx.violation)("C05.3", ckey(mo, None, "all-children"), where(mo, mo.node),
+                                          "every child of model_options goes through _replacement" if ok else "not every parameter of a model is visited")
+    # the table is the file's Define table
+    pf_, pflow = fn(ss, DEC, "DecFileParser.parse")
+    ctor = [c for c in pf.calls_in(pf_.node) if isinstance(c.func, ast.Name) and c.func.id == "DecayModelParamValueReplacement"]
+    ok = bool(ctor) and all((c.keywords or c.args) and pflow.text(c.keywords[0].value if c.keywords else c.args[0]) == "self.dict_definitions()" for c in ctor)
+    (ctx.holds if ok else ctx.violation)("C05.3", ckey(pf_, None, "define-table"), where(pf_, ctor[0] if ctor else pf_.node),
+                                          "the visitor gets self.dict_definitions()" if ok else "the parameter visitor is not given the file's Define table")
+    ctor = [c for c in pf.calls_in(pf_.node) if isinstance(c.func, ast.Name) and c.func.id == "DecayModelAliasReplacement"]
+    ok = bool(ctor) and all((c.keywords or c.args) and pflow.text(c.keywords[0].value if c.keywords else c.args[0]) in
+                            ("copy.deepcopy(self._dict_raw_model_aliases())", "self._dict_raw_model_aliases()") for c in ctor)
+    (ctx.holds if ok else ctx.violation)("C05.3", ckey(pf_, None, "alias-table"), where(pf_, ctor[0] if ctor else pf_.node),
+                                          "the alias transformer gets the file's ModelAlias table" if ok else "the alias transformer is not given the file's ModelAlias table")
